@@ -649,7 +649,7 @@ func runStress(p StressParams, scratch string, idx int) *StressResult {
 	case <-waitCh:
 	case <-time.After(120 * time.Second):
 		close(stopExtras)
-		ewg.Wait()
+		time.Sleep(50 * time.Millisecond)
 		res.Inconc = "watchdog: stress run did not finish in 120s"
 		q, gs := eng.Quiescent(300 * time.Millisecond)
 		if q {
